@@ -13,7 +13,8 @@ request `["case", vars, cons, hints, limit, implSols, cnf, assumptions, satModel
   satModels   : models returned by `solve_sat`, each the list of variables that are true
   litmap      : per variable `[[value, boolean], …]` as in `IntVar.bool_vars`
   mode        : bit 0 = projected enumeration of `cnf`, bit 1 = run the DFS mirror,
-                bit 2 = return the mirror clause list
+                bit 2 = return the mirror clause list, bit 3 = skip the exhaustive enumeration
+                (large routing cases: `sols`/`hintSols` are then `[]` and mean nothing)
   hidden      : indices of variables declared without a name (`_v<k>`, not part of results)
 reply `[sols, hintSols, implChecks, mirrorCnf, chooseSat, dfsSols, cnfInfo]`
   sols       : every solution of the model (verified enumerator `solutions`)
@@ -22,7 +23,7 @@ reply `[sols, hintSols, implChecks, mirrorCnf, chooseSat, dfsSols, cnfInfo]`
                `2+k` constraint `k` violated (verified evaluator `check`), `1000` (hidden variables
                present) the values do not extend to a solution
   mirrorCnf  : `encodeModel` (mirror of the repaired encoder) or `null`
-  chooseSat  : `_choose_solver` picks SAT
+  chooseSat  : `[auto, dfs]`: `_choose_solver` picks SAT / `_solve_dfs` falls back to SAT
   dfsSols    : solutions of the DFS mirror (repaired), or `null`
   cnfInfo    : `null` or `[wf, satUnderAssumptions, satModelChecks, proj]`, `proj` = `null` or, per
                projected model of `cnf`, per variable the list of values whose boolean is true
@@ -97,7 +98,7 @@ def handleCase (vars cons hints limit impl cnf assum smods litmap mode hidden : 
     | some vars, some cons, some hints, some limit, some impl, some cnf, some assum, some smods,
       some litmap, some mode, some hidden =>
       let M : Model := ⟨vars, cons⟩
-      let sols := solutions M
+      let sols := if mode / 8 % 2 == 1 then [] else solutions M
       -- dict semantics of hints: a later hint for the same name replaces the earlier one
       let eff := effHints vars hints
       let hintSols := sols.filter fun a => eff.all fun h => val a h.1 == h.2
@@ -118,7 +119,8 @@ def handleCase (vars cons hints limit impl cnf assum smods litmap mode hidden : 
             else Val.null
           Val.arr [Val.bool wf, Val.bool satA, Val.arr mchk, proj]
       (Val.arr [Val.ofIntss sols, Val.ofIntss hintSols, Val.ofInts checks,
-        (if mode / 4 % 2 == 1 then Val.ofIntss (encodeModel M) else Val.null), Val.bool (chooseSat M), dfs,
+        (if mode / 4 % 2 == 1 then Val.ofIntss (encodeModel M) else Val.null),
+        Val.arr [Val.bool (chooseSat M), Val.bool (dfsFallback M)], dfs,
         info]).render
     | _, _, _, _, _, _, _, _, _, _, _ => err "bad arguments"
 where
